@@ -28,17 +28,20 @@ Record nd := {
   d_anc : option nat; d_size : nat; d_nop : bool; d_fn : N; d_start : option nat
 }.
 
-Definition nrec := (N * N * N * N * N * N * N * N * N * N * N)%type.
+(** The harness packs the fields of a node into one number, 12 bits per field, first field lowest:
+    tnext+1, fnext+1, code address, has position, line, column, parent+1, subtree size,
+    action is nop, function name id, start+1 (0 = none for the +1 fields). *)
+Definition fld (x : N) (i : N) : N := N.land (N.shiftr x (12 * i)) 4095.
 
 Definition opt_of (x : N) : option nat := if N.eqb x 0 then None else Some (N.to_nat x - 1).
 Definition bool_of (x : N) : bool := negb (N.eqb x 0).
 
-Definition mk_node (r : nrec) : nd :=
-  let '(t, f, p, pos, line, col, anc, size, nop, fn, start) := r in
-  {| d_t := opt_of t; d_f := opt_of f; d_pc := p; d_pos := bool_of pos; d_line := line; d_col := col;
-     d_anc := opt_of anc; d_size := N.to_nat size; d_nop := bool_of nop; d_fn := fn; d_start := opt_of start |}.
+Definition mk_node (x : N) : nd :=
+  {| d_t := opt_of (fld x 0); d_f := opt_of (fld x 1); d_pc := fld x 2; d_pos := bool_of (fld x 3);
+     d_line := fld x 4; d_col := fld x 5; d_anc := opt_of (fld x 6); d_size := N.to_nat (fld x 7);
+     d_nop := bool_of (fld x 8); d_fn := fld x 9; d_start := opt_of (fld x 10) |}.
 
-Definition mk_nodes (l : list nrec) : list nd := map mk_node l.
+Definition mk_nodes (l : list N) : list nd := map mk_node l.
 
 Definition get {A} (nodes : list nd) (n : nat) (f : nd -> A) (dflt : A) : A :=
   match nth_error nodes n with Some r => f r | None => dflt end.
@@ -128,15 +131,18 @@ Definition mk_req (x : N) : request :=
   | _ => QStep RPause
   end%N.
 
-Definition mk_act (x : N * N * N) : act :=
-  let '(k, p, n) := x in
-  match k with
-  | 0%N => AEnter (N.to_nat n)
-  | 1%N => ARet (Some (p, N.to_nat n))
+(** packed: kind (0 enter, 1 return a closure, 2 return nil), code address, node. *)
+Definition mk_act (x : N) : act :=
+  match fld x 0 with
+  | 0%N => AEnter (N.to_nat (fld x 2))
+  | 1%N => ARet (Some (fld x 1, N.to_nat (fld x 2)))
   | _ => ARet None
   end.
 
-Definition mk_acts (l : list (N * N * N)) : list act := map mk_act l.
+Definition mk_acts (l : list N) : list act := map mk_act l.
+
+(** packed observed event: reason, line, column. *)
+Definition mk_event (x : N) : N * N * N := (fld x 0, fld x 1, fld x 2).
 
 Definition reason_code (r : reason) : N :=
   match r with
@@ -194,21 +200,27 @@ Record session := {
   s_reqs : list N;
   s_markers : list N;
   (* observed on the implementation *)
-  o_events : list (N * N * N);
+  o_events : list N;           (* packed: reason, line, column *)
   o_flags : list N;            (* positions of the nodes with breakOnLine || breakOnCall *)
   o_valid_lines : list N; o_valid_funcs : list N;
   (* reference derived from the program's output *)
-  r_lines : list N
+  r_lines : list N;
+  (* the harness's label: 1 = the tracker is exact wherever a breakpoint is involved (main stream),
+     0 = it is not (region "mistrack"), 2 = not labelled (terminated session) *)
+  s_exact : N
 }.
 
 Definition session_ok_y (c : session) : bool :=
   let '(flags, vl, vf) := y_place (s_nodes c) (s_lines c) (s_funcs c) in
   same_setN (map N.of_nat flags) (o_flags c)
   && same_setN vl (o_valid_lines c) && same_setN vf (o_valid_funcs c)
-  && list_eqb ev_eqb (y_events (s_nodes c) flags (s_acts c) (map mk_req (s_reqs c))) (o_events c).
+  && list_eqb ev_eqb (y_events (s_nodes c) flags (s_acts c) (map mk_req (s_reqs c))) (map mk_event (o_events c))
+  && (N.eqb (s_exact c) 2
+      || Bool.eqb (y_exact (s_nodes c) flags (s_acts c) (map mk_req (s_reqs c))) (N.eqb (s_exact c) 1)).
 
 Definition session_ok_g (c : session) : bool :=
   let '(flags, _, _) := y_place (s_nodes c) (s_lines c) (s_funcs c) in
+  N.eqb (s_exact c) 2 ||
   list_eqb N.eqb (g_lines (s_nodes c) flags (s_acts c) (s_markers c)) (r_lines c).
 
 Definition c19_mis_y (cs : list session) : list N :=
